@@ -17,6 +17,7 @@
 #
 import logging
 from multiprocessing import Process, Queue, Pipe
+from queue import Empty as QueueEmpty
 from multiprocessing.connection import Connection
 from typing import Any, Dict, Iterable, List, Optional, Tuple, Union, cast
 
@@ -26,6 +27,7 @@ from pysmt.decorators import clear_pending_pop
 from pysmt.logics import convert_logic_from_string, Logic
 from pysmt.fnode import FNode
 from pysmt.utils import assert_not_none
+from pysmt.exceptions import SolverReturnedUnknownResultError
 
 
 LOGGER = logging.getLogger(__name__)
@@ -156,9 +158,25 @@ class Portfolio(IncrementalTrackingSolver):
             _p.start()
             _debug("Started instance of %s", sname)
 
+        last_exception: Optional[BaseException] = None
         while True:
-            (sname, res) = signaling_queue.get(block=True)
+            try:
+                (sname, res) = signaling_queue.get(block=True, timeout=0.2)
+            except QueueEmpty:
+                if any(p.is_alive() for p in processes):
+                    continue
+                # All the solvers terminated: nobody will ever write
+                # in the queue, except for what is still in transit
+                try:
+                    (sname, res) = signaling_queue.get(block=True, timeout=0.5)
+                except QueueEmpty:
+                    if last_exception is not None:
+                        raise last_exception
+                    raise SolverReturnedUnknownResultError(
+                        "All the solvers of the portfolio terminated "
+                        "without an answer")
             if isinstance(res, BaseException):
+                last_exception = res
                 if cast(PortfolioOptions, self.options).exit_on_exception:
                     # Close all solvers and raise exception
                     for p in processes:
